@@ -167,7 +167,7 @@ func (s *regSys) exec(op Op) (out Outcome) {
 	switch op.K {
 	case "PushBlob":
 		data := u.Blobs[op.B]
-		d := descOf(mtOctet, data)
+		d := descOf(blobMT(op), data)
 		switch op.Bad {
 		case "digest":
 			d.Digest = sha256Digest([]byte("some other content"))
@@ -390,7 +390,7 @@ func sameObject(a ociregistry.Interface, raw any) bool {
 
 func c02Alphabet(u *universe, tier string, chunked bool) alphabetConfig {
 	c := alphabetConfig{Repos: u.Repos, BadRepo: true, Chunked: chunked, MaxUploads: 1, MaxUpload: 3,
-		Manifests: []int{0, 1, 2, 3, 4, 5, 6, 7, 8, 9, 10}, Blobs: []int{0, 1, 2}, Deletes: true, Mounts: true, BadPushes: true, UntaggedToo: true, FinishedOps: true, ExplicitIDs: true}
+		Manifests: []int{0, 1, 2, 3, 4, 5, 6, 7, 8, 9, 10}, Blobs: []int{0, 1, 2}, Deletes: true, Mounts: true, BadPushes: true, UntaggedToo: true, FinishedOps: true, ExplicitIDs: true, AltBlobMT: true}
 	return c
 }
 
